@@ -463,7 +463,94 @@ func (e *reuseEngine) Generate(seed uint64, tier string, run int) (json.RawMessa
 			}
 		}
 	}
+	// feature sweep: the same text shaped several times on the same long-lived object with one
+	// feature whose value or range moves (a rich-text editor restyling a span). The (text, tag)
+	// pair is calibrated: a fresh buffer gives different glyphs with the feature on and off, so
+	// whatever a cache remembered about the feature of an earlier call is visible in the result
+	if rk.Chance(0.15) {
+		f := rg.Intn(len(c.Faces))
+		if pairs := featureSensitive(models[f].ft); len(pairs) > 0 {
+			p := kernel.Pick(rg, pairs)
+			t := []rune(p.Text)
+			n := len(t)
+			var burst []ReuseOp
+			if rg.Chance(0.7) {
+				base := ReuseOp{K: "hbshape", F: f, Text: p.Text, S: 0, E: n, Dir: 4, Script: uint32(scriptOf(t)), CL: uint8(rg.Intn(3))}
+				val := uint32(rg.Intn(2))
+				wd := 1 + n/rg.Range(2, 6)
+				for i := rg.Range(3, 6); i > 0; i-- {
+					op := base
+					st := rg.Intn(n)
+					op.Feats = []FeatSpec{{Tag: p.Tag, Val: val, Start: st, End: st + wd}}
+					switch rg.Intn(6) {
+					case 0:
+						op.Feats[0].Start, op.Feats[0].End = 0, 0 // global
+					case 1:
+						val = 1 - val
+					case 2:
+						wd = 1 + rg.Intn(n)
+					}
+					burst = append(burst, op)
+				}
+			} else {
+				base := ReuseOp{K: "shape", F: f, Text: p.Text, S: 0, E: n, Dir: 0, Script: uint32(scriptOf(t)), Size: 16 * 64}
+				for i := rg.Range(3, 5); i > 0; i-- {
+					op := base
+					if v := rg.Intn(3); v < 2 {
+						op.Feats = []FeatSpec{{Tag: p.Tag, Val: uint32(v)}}
+					}
+					burst = append(burst, op)
+				}
+			}
+			at := rg.Intn(len(c.Ops) + 1)
+			if at == 0 && len(c.Ops) > 0 && c.Ops[0].K == "cachesize" {
+				at = 1
+			}
+			c.Ops = append(c.Ops[:at], append(burst, c.Ops[at:]...)...)
+		}
+	}
 	return json.Marshal(c)
+}
+
+type sensPair struct{ Text, Tag string }
+
+var sensCache = map[*font.Font][]sensPair{}
+
+// featureSensitive returns (text, feature tag) pairs for which a fresh harfbuzz.Buffer gives a
+// different result with the feature globally off and globally on. A pure function of the font.
+func featureSensitive(ft *font.Font) []sensPair {
+	if p, ok := sensCache[ft]; ok {
+		return p
+	}
+	var out []sensPair
+	texts := []string{sampleTexts[1], sampleTexts[2]}
+	if rs := cmapRunes(ft); len(rs) > 0 {
+		if len(rs) > 48 {
+			rs = rs[:48]
+		}
+		texts = append(texts, string(rs))
+	}
+	protect(func() {
+		face := font.NewFace(ft)
+		for _, txt := range texts {
+			t := []rune(txt)
+			shape := func(tag string, val uint32) string {
+				b := harfbuzz.NewBuffer()
+				b.Props.Direction = harfbuzz.LeftToRight
+				b.Props.Script = scriptOf(t)
+				b.AddRunes(t, 0, len(t))
+				b.Shape(harfbuzz.NewFont(face), []harfbuzz.Feature{{Tag: ot.MustNewTag(pad4(tag)), Value: val, Start: 0, End: harfbuzz.FeatureGlobalEnd}})
+				return digestBuffer(b)
+			}
+			for _, tag := range someFeatures {
+				if shape(tag, 0) != shape(tag, 1) {
+					out = append(out, sensPair{txt, tag})
+				}
+			}
+		}
+	})
+	sensCache[ft] = out
+	return out
 }
 
 func genWidth(r *kernel.Rand) int {
